@@ -175,4 +175,29 @@ def check(ctx, build=None):
 
 
 def replay(ctx, path):
-    return check(ctx)
+    """re-run one catalogue entry (all its positions) or one look-alike package"""
+    obj = json.load(open(path))
+    inp = obj.get("input", {})
+    entry = inp.get("entry")
+    if not entry or inp.get("proto") not in ("k4-catalogue", "k4-lookalike"):
+        return check(ctx)
+    C.ensure_built("C02", ["guards"], need_harness=False, extra_go=gomod.EXTRA_GO)
+    scratch = C.scratch()
+    bad = []
+    try:
+        if inp["proto"] == "k4-lookalike":
+            src, extra = c02cat.LOOKALIKES[entry.split(":", 1)[1]]
+            lf, lc = lookalike_package(src, extra)
+            r = k4.run_package(lf, lc, scratch)
+            bad = r["mismatches"]
+        else:
+            fns, files, calls = catalogue_package()
+            r = k4.run_package(files, calls, scratch)
+            mine = {n for n, e, c, s_ in fns if e == entry}
+            bad = [m for m in r["mismatches"] if m["fn"] in mine]
+            print("positions rejected:", sorted(c for n, e, c, s_ in fns if e == entry and n in r["rejected"]))
+    finally:
+        shutil.rmtree(scratch, ignore_errors=True)
+    print(json.dumps(bad[:4], indent=1))
+    print("verdict:", "violates the property" if bad else "meets the property (rejected or faithful at every position)")
+    return 1 if bad else 0
